@@ -3,6 +3,7 @@ mod diskfmt;
 mod engine;
 mod gen;
 mod lin;
+mod netfx;
 mod props;
 mod rec;
 mod resp;
